@@ -32,7 +32,12 @@ if os.path.exists(st):
     print()
 print('### 9.5 Independently seeded changes (fresh sub-agents given only the property text and a scratch worktree)\n')
 print('Each change was produced by a fresh sub-agent that saw only the property text and its own worktree of /repo (nothing from /verif),')
-print('in rounds (later rounds were told which sites earlier rounds had used). `lib/seedcheck.py` confirmed every one in a scratch copy:')
+print('in five rounds of two changes per property (letters A/B, C/D, E/F, G/H, I/J). Later rounds were told which sites earlier rounds had used;')
+print('round 4 was additionally told to assume model-based tests of the main API with boundary-biased sizes and to aim at rarely used overloads,')
+print('objects reused after close/clear/reset, aliasing between arguments, state carried between calls and helper code in other files; round 5 to')
+print('assume all of that plus fuzzing, and to aim at implementation-specific buffer sizes, numeric extremes, combinations of settings, hidden state')
+print('across three or more calls, error / partial-I/O paths, locale/time-zone/environment dependence (prompts: `lib/mkseedprompt.py`).')
+print('`lib/seedcheck.py` confirmed every one in a scratch copy:')
 print('the 28 unit tests pass with the patch, the demonstration fails with it and passes without it (3 runs each); then the quick check')
 print('was run against the patched copy. "history" in a directory\'s meta.json tells what happened when a change first survived.\n')
 print('| seeded change | site | needs, in order to manifest | quick check |')
@@ -49,12 +54,21 @@ print()
 print('Changes that survived their first run, and what was strengthened because of them:\n')
 for n, m in surv:
     print('* **%s** - %s' % (n, m['history']))
+pre = [(os.path.basename(os.path.dirname(mp)), json.load(open(mp))) for mp in sorted(glob.glob(R + '/seeded/*/meta.json'))]
+pre = [(n, m) for n, m in pre if m.get('note')]
+if pre:
+    print()
+    print('Changes whose first recorded run was already a kill because the check had been strengthened after reading the change\'s description:\n')
+    for n, m in pre:
+        print('* **%s** - %s' % (n, m['note']))
 tot = len(glob.glob(R + '/seeded/*/meta.json'))
 print()
 obs = [n for n, m in surv if m.get('obsolete')]
 other = [n for n, m in surv if m.get('caught_by')]
-print('%d seeded changes confirmed; %d survived the first run of their own property\'s check; every one is caught by the current quick checks (re-run after every strengthening)%s%s.' % (
-    tot, len(surv), ', %d of them by the check of the sibling property whose subject they touch (%s)' % (len(other), ', '.join(other)) if other else '',
+allm = [(os.path.basename(os.path.dirname(mp)), json.load(open(mp))) for mp in sorted(glob.glob(R + '/seeded/*/meta.json'))]
+open_ = [n for n, m in allm if m.get('check_quick', {}).get('result') != 'killed' and not m.get('caught_by') and not m.get('obsolete')]
+print('%d seeded changes confirmed; %d survived the first run of their own property\'s check; %s by the current quick checks (re-run after every strengthening)%s%s.' % (
+    tot, len(surv), 'every one is caught' if not open_ else 'all but %d (%s) are caught' % (len(open_), ', '.join(open_)), ', %d of them by the check of the sibling property whose subject they touch (%s)' % (len(other), ', '.join(other)) if other else '',
     '; %d no longer applies because a later fix removed the code it mutated (%s)' % (len(obs), ', '.join(obs)) if obs else ''))
 
 text = _out.getvalue()
